@@ -9,4 +9,6 @@ MODULES = [
     'contracts.c_expr',
     'contracts.c_codec',
     'contracts.c_codegen',
+    'contracts.c_optimize',
+    'contracts.c_using',
 ]
